@@ -77,13 +77,16 @@ impl SubscriptionTrie {
     }
 
     let final_node_r = current_node_arc.read();
-    let old_count = final_node_r.count.fetch_sub(1, Ordering::Relaxed);
+    // Checked decrement: the count must never wrap, not even transiently, because
+    // `matches` and other `unsubscribe` calls read it concurrently under read locks.
+    let decremented = final_node_r
+      .count
+      .fetch_update(Ordering::Relaxed, Ordering::Relaxed, |c| c.checked_sub(1));
 
-    if old_count > 0 {
+    if let Ok(old_count) = decremented {
       tracing::debug!(topic = ?String::from_utf8_lossy(topic), new_count = old_count - 1, "Unsubscribed");
       old_count == 1
     } else {
-      final_node_r.count.fetch_add(1, Ordering::Relaxed);
       tracing::warn!(topic = ?String::from_utf8_lossy(topic), "Unsubscribe attempt on topic with zero count");
       false
     }
